@@ -1089,6 +1089,12 @@ class Engine:
         if op == "Mod" and isinstance(e.left, ast.Constant) and isinstance(e.left.value, str):
             return self.bi.percent_format(self, e)
         a, b = self.ev(e.left), self.ev(e.right)
+        if op == "Mod" and a.ty == "str" and b.ty in ("str", "any"):
+            # template % value with a template that is not a literal: an uninterpreted function of (template, value)
+            r = V("str", z3.Function("str_mod", I, I, I)(a.z, b.z))
+            if not self.st.bound:
+                self.st.pc.append(r.z >= 1)
+            return r
         return self.binop(op, a, b, e)
 
     def binop(self, op, a, b, e=None):
